@@ -39,7 +39,7 @@ def work(arg):
     slack = arg[7] if len(arg) > 7 else 0
     exp, n = expected(base, pieces, cfg)
     job = "file %s\nnchunks %d\ndepth %d\nextra %d\nslack %d\n" % (base.hex(), n, depth, extra, slack) + "".join("seq %s\n" % s for s in (seqs or []))
-    cs = core.drv("chunkreq", job, timeout=3000)
+    cs = core.drv("chunkreq", job, timeout=3000, env_extra={"VF_BLOB_MAX": "100000000"} if name.startswith("ref:big:") else None)
     res = {"n": 0, "req": 0, "viol": [], "revisit": 0, "outcomes": set()}
     for c in cs:
         q = c.first("Q")
@@ -98,6 +98,14 @@ def run(ctx):
     jobs += [(n, b, p, c, xdepth, None, 1) for n, b, p, c in bs if len(p) == 3 or ctx.deep]
     # the caller's buffer is larger than the chunk (7 and 4096 bytes of slack): the answer is still exactly the chunk
     jobs += [(n, b, p, c, 2 if not ctx.deep else 3, None, 0, sl) for n, b, p, c in bs for sl in (7, 4096)]
+    # scale-dependent shapes: chunks larger than one and two 32 KiB buffers, exactly one buffer, one byte more (incompressible)
+    for cfg in (Cfg(0, b"", 0, 3, 1), Cfg(2, b"", 0, 1, 1)):
+        bigf, bpcs = universe.big_file(cfg, ctx.seed)
+        ops = ["d1", "d3", "s3", "d5", "s2", "d2"]
+        seqs = ops + ["%s,%s" % (a, b) for a in ops for b in ops]
+        for sl in (0, 7):
+            jobs.append(("ref:big:%s" % cfg.name(), bigf, bpcs, cfg, 0, seqs, 0, sl))
+    ctx.bounds["big_chunks"] = "two files with chunks of 40000, 32768, 70000, 100, 32769 bytes: all ordered pairs of six requests, buffer slack 0 and 7"
     ctx.bounds["with_history_operations"] = {"depth": xdepth, "operations": "read 1, read 40, validate-checksums, find-valid-chunks, chunk data into a half-size buffer"}
     for r in core.pmap(work, jobs):
         ctx.states += r["n"]; ctx.evaluations += r["n"]; ctx.transitions += r["req"]; ctx.nontrivial += r["revisit"]
